@@ -1,6 +1,6 @@
 (* Byte-level model of src/serialize.rs (trait Serialize and its blanket impls, skip_option, absent_option)
    and of the `impl Serialize` blocks of raw_vector.rs, int_vector.rs, bit_vector.rs, rank_support.rs,
-   select_support.rs. A codec packs what the three methods of the trait compute:
+   select_support.rs, rl_vector.rs. A codec packs what the three methods of the trait compute:
      c_enc  = the bytes `serialize` writes (header then body),
      c_dec  = `load` on the remaining bytes of a reader; returns the value and the unread rest,
      c_size = `size_in_elements`,
@@ -16,6 +16,7 @@
 From Coq Require Import String NArith List Bool.
 Require Import SDS.Model.Mach SDS.Model.Bits SDS.Model.Raw SDS.Model.IntVec SDS.Model.BitVec.
 Require Import SDS.gen.Consts SDS.gen.Funs SDS.Spec.Stream.
+Require SDS.Model.RL.    (* qualified (RL.rlvec ...): Model/RL.v reuses some record names of Model/BitVec.v *)
 Import ListNotations.
 Open Scope N_scope.
 
@@ -309,6 +310,51 @@ Definition expected_BitVector : layout := mklayout
    "value.superblocks() != bits::div_round_up(data.len() - ones, SelectSupport::<Complement>::SUPERBLOCK_SIZE)"]%string
   ["ones"; "data"; "rank"; "select"; "select_zero"]%string.
 
+(* ------------------------------------------------------------------ RLVector *)
+
+(* `(0..sample_blocks).map(|block| f(block))`: the items SampleIndex::new consumes. The closures read
+   samples.get(2 * block [+ 1]) with block < samples.len() / 2 <= 2^63, so the index arithmetic is exact and the
+   reads never miss; they are evaluated here before SampleIndex::new instead of lazily inside it, which can only
+   change WHICH panic a malformed file produces (an assert of SampleIndex::new or the u64 subtraction), never
+   whether it produces one. [n] = number of blocks: bounded by the samples really held in memory. *)
+Fixpoint rl_col (f : N -> res N) (n : nat) (block : N) : res (list N) :=
+  match n with
+  | O => Ok []
+  | S k => let* x := f block in let* t := rl_col f k (block + 1) in Ok (x :: t)
+  end.
+
+(* RLVector::load after the four fields are read: the sanity check, then the three sample indexes are REBUILT
+   from the samples (they are not part of the file) *)
+Definition rl_from_fields (m : mode) (p : N * (N * (intvec * intvec))) : io RL.rlvec :=
+  let '(len, (ones, (samples, data))) := p in
+  let sample_blocks := ilen samples / 2 in
+  let+ data_blocks := io_of_res (f_div_round_up m (ilen data) rl_BLOCK_SIZE) in
+  if negb (sample_blocks =? data_blocks) then IoErr InvalidData
+  else
+    let n := N.to_nat sample_blocks in
+    let+ tails := io_of_res (rl_col (fun b => iv_get samples (2 * b + 1)) n 0) in
+    let+ rank_index := io_of_res (RL.si_new m tails len) in
+    let+ firsts := io_of_res (rl_col (fun b => iv_get samples (2 * b)) n 0) in
+    let+ select_index := io_of_res (RL.si_new m firsts ones) in
+    let+ zeros := io_of_res (usub m len ones) in
+    let+ gaps := io_of_res (rl_col (fun b => let* t := iv_get samples (2 * b + 1) in
+                                             let* o := iv_get samples (2 * b) in usub m t o) n 0) in
+    let+ select_zero_index := io_of_res (RL.si_new m gaps zeros) in
+    IoOk (RL.mkrl len ones rank_index select_index select_zero_index samples data).
+
+(* well-formed = the four fields are, and the loader rebuilds exactly this record: true of every vector that
+   RLVector::from builds (Proofs/SerRL.v), because From computes the indexes by the same SampleIndex::new from the
+   same sample values *)
+Definition rl_codec (m : mode) : codec RL.rlvec :=
+  conv_codec (seq_codec usize_codec (seq_codec usize_codec (seq_codec (iv_codec m) (iv_codec m))))
+             (fun v => (RL.rl_len v, (RL.rl_ones v, (RL.rl_samples v, RL.rl_data v)))) (rl_from_fields m).
+
+Definition expected_RLVector : layout := mklayout
+  ["len:serialize"; "ones:serialize"]%string ["samples:serialize"; "data:serialize"]%string
+  ["len=usize"; "ones=usize"; "samples=IntVector"; "data=IntVector"]%string
+  ["sample_blocks != data_blocks"]%string
+  ["len"; "ones"; "samples"; "data"]%string.
+
 (* the blanket impls of serialize.rs *)
 Definition expected_V : layout := mklayout []%string ["write_all:buf"]%string ["read_exact:buf"]%string []%string []%string.
 Definition expected_Vec_V : layout := mklayout
@@ -354,7 +400,7 @@ Fixpoint bv_enable_ops (sp : selpath) (m : mode) (ops : list N) (b : bitvec) : r
 Inductive ty :=
 | TU64 | TUsize | TPair | TVecU64 | TVecPair | TBytes | TString
 | TOpt (t : ty)
-| TRaw | TIntVec | TRank | TSelect | TBitVec.
+| TRaw | TIntVec | TRank | TSelect | TBitVec | TRL.
 
 Fixpoint interp (t : ty) : Type :=
   match t with
@@ -369,6 +415,7 @@ Fixpoint interp (t : ty) : Type :=
   | TRank => rank_support
   | TSelect => select_support
   | TBitVec => bitvec
+  | TRL => RL.rlvec
   end.
 
 Fixpoint codec_of (m : mode) (t : ty) : codec (interp t) :=
@@ -386,6 +433,7 @@ Fixpoint codec_of (m : mode) (t : ty) : codec (interp t) :=
   | TRank => rs_codec
   | TSelect => ss_codec m
   | TBitVec => bv_codec m
+  | TRL => rl_codec m
   end.
 
 (* typed values written back to back in one stream *)
